@@ -211,8 +211,8 @@ func (r *c17Run) fail(sig, f string, a ...any) *verifkit.Failure {
 }
 
 func c17Prefix(i int) netip.Prefix { return netip.MustParsePrefix(fmt.Sprintf("10.17.%d.0/24", i)) }
-func c17RD(i int) string          { return fmt.Sprintf("65001:%d", 1+i) }
-func c17VrfRD(i int) string       { return fmt.Sprintf("65000:%d", 100+i) }
+func c17RD(i int) string           { return fmt.Sprintf("65001:%d", 1+i) }
+func c17VrfRD(i int) string        { return fmt.Sprintf("65000:%d", 100+i) }
 
 func c17ApiVrf(i int, v c17Vrf) *api.Vrf {
 	rd, _ := bgp.ParseRouteDistinguisher(c17VrfRD(i))
